@@ -65,6 +65,15 @@ Theorem C17_failed_kernel_trial_returns : forall fx g k0 b0 evs, fx || g = true 
 Proof. intros * Hg m. eapply failed_kernel_trial_returns; eauto. exists evs; reflexivity. Qed.
 Print Assumptions C17_failed_kernel_trial_returns.
 
+(* UC20: bounded fallback -- from every reachable state, a reset is followed by a mount within two firmware rounds
+   (a missing or untrusted try kernel costs one extra round; no try loop, no dead end) *)
+Theorem C17_boot_terminates : forall fx g k0 b0 evs, fx || g = true ->
+  let m := run20 fx g (init20 k0 b0) evs in
+  g && in_window m = false ->
+  exists k b, ph (run20 fx g m [EReset; EFirmware; EInitramfs; EFirmware; EInitramfs]) = PhRun k b.
+Proof. intros * Hg m. eapply boot_terminates; eauto. exists evs; reflexivity. Qed.
+Print Assumptions C17_boot_terminates.
+
 (* UC20: a failed base trial (base_status still trying when the initramfs runs) mounts the modeenv base, which is
    known-good, and clears the status *)
 Theorem C17_failed_base_trial_returns : forall fx g k0 b0 evs, fx || g = true ->
